@@ -7,7 +7,7 @@ use crate::rng::{mix, mix_all};
 use crate::world::*;
 use bytes::Bytes;
 use pearl::{ArrayKey, BlobRecordTimestamp, BloomConfig, BloomProvider, Builder, Key, Meta, ReadResult, Storage};
-use std::cell::RefCell;
+use std::cell::{Cell, RefCell};
 use std::collections::{BTreeMap, BTreeSet};
 use std::future::Future;
 use std::path::{Path, PathBuf};
@@ -307,6 +307,8 @@ pub struct RunCtx {
     pub key_len: usize,
     pub history: RefCell<Vec<HistEntry>>,
     /// model side: does the storage currently have an active blob (None = unknown)
+    /// the session's close() must not be preceded by settling (OpKind::QuietTail)
+    pub quiet_close: Cell<bool>,
     pub active_known: RefCell<Option<bool>>,
     /// ids of blobs not attached to the storage although present in the work dir
     pub ignored: RefCell<BTreeSet<usize>>,
@@ -506,6 +508,7 @@ where
         key_len: plan.store.key_len as usize,
         history: RefCell::new(Vec::new()),
         active_known: RefCell::new(None),
+        quiet_close: Cell::new(false),
         ignored: RefCell::new(BTreeSet::new()),
         indeterminate: RefCell::new(BTreeSet::new()),
         saved_indexes: RefCell::new(BTreeMap::new()),
